@@ -336,7 +336,7 @@ func c17R4(c *Ctx, rule string) {
 				blocking[f] = shortFn(f) + " → " + b
 			}
 			if ci, ok := i.(ssa.CallInstruction); ok {
-				calls[f] = append(calls[f], lo.repoCallees(ci)...)
+				calls[f] = append(calls[f], lo.calleesCtx(f, ci)...)
 			}
 		})
 	}
